@@ -13,8 +13,9 @@ EXPLANATION = ('R6 effect rule: no write command is reachable in the resolved ca
     'returns, and the commit byte (the first length byte) is flushed on its own after the extended length bytes are on the '
     'tag; the write-back visits units in ascending address order and writes only units that differ.  Type 3: the first '
     'command is the attribute write with WriteFlag=0Fh, data block writes lie between it and the final attribute write that '
-    'carries Ln and WriteFlag=00h in one block.  Type 4: either one UPDATE BINARY carries NLEN+data, or the first chunk '
-    'carries a zero NLEN and the real NLEN is the last command on every path.  What a reader sees for a concrete image '
+    'carries Ln and WriteFlag=00h in one block.  Type 4: the writer and UPDATE BINARY folded to their command sequence for a grid of '
+    'NLEN sizes, MLc values and message lengths and replayed on a file holding an older message: after every proper prefix of '
+    'the sequence NLEN is zero, after the whole sequence it is the message length.  What a reader sees for a concrete image '
     'after cut k needs a tag model and is not decided.')
 
 
